@@ -353,6 +353,18 @@ class World(object):
         self.ev("J", self.seq, self.now, addr, v)
         return v
 
+    def _unhandled(self, f):
+        """A Failure that nothing handled (reported by Twisted's logger)."""
+        kind = self.cur[1] if self.cur else "idle"
+        try:
+            name = type(f.value).__name__
+            msg = str(f.value)[:200]
+        except Exception:
+            name, msg = "Failure", ""
+        if name == "StepSkipped":
+            return
+        self.ev("E", self.seq, self.now, kind + ":unhandled", name, msg)
+
     def _timer_new(self, dc):
         conn = self.cur[2] if self.cur else None
         f = dc.func
